@@ -414,6 +414,9 @@ pub fn expr_alts() -> Vec<EAlt> {
             }));
         }
     }
+    // the same update with an identifier, a member and a nested subscript as index
+    v.push(atom("atom.arr_update_ident_index", |_| bin("Assign", "=", 14, 13, 14, subscript(var("arr"), var("k")), bin("Add", "+", 5, 5, 4, subscript(var("arr"), var("k")), var("q")))));
+    v.push(atom("atom.arr_update_member_index", |_| bin("Assign", "=", 14, 13, 14, subscript(var("arr"), member(var("msg"), "sender")), bin("Subtract", "-", 5, 5, 4, subscript(var("arr"), member(var("msg"), "sender")), var("q")))));
     v.push(atom("atom.arr_compound", |_| bin("AssignAdd", "+=", 14, 13, 14, subscript(var("arr"), num("0")), var("q"))));
     v.push(atom("atom.arr_other_index", |_| {
         bin(
